@@ -718,13 +718,21 @@ def r04e(run, rule="R04e"):
     pp = [(n, c) for n, c in ga.all_calls() if call_attr(c) == "parse_params"]
     run.check(rule, g, "get_params delegates to parse_params", bool(pp), construct="get_params without parse_params",
               message="get_params never calls parse_params")
+    # must-pass: with the parse_params flag set, no path from the entry to a normal return avoids every parse_params call
+    # (the arms in which the flag is false are cut; any other condition may split the function into several call sites)
+    flag = "parse_params" if "parse_params" in g.params else None
+    from ..cfg import branch_atoms
+    off = [b for b in ga.cfg.nodes if b.kind == "branch" and not b.is_for and flag
+           and any(t == flag and not p_ for t, p_ in branch_atoms(b))]
+    reach = ga.cfg.reach_from_succ(ga.cfg.entry, kinds=(N,), avoid=[n for n, c in pp] + off)
+    run.check(rule, g, "parse_params runs whenever the parse_params flag is set (on every path to a return)",
+              bool(flag) and ga.cfg.exit not in reach,
+              construct="a path of get_params skips parse_params although the flag is set",
+              message="get_params can return without calling parse_params on a path where the parse_params flag is not false",
+              necessity="for calls taking that path the arguments are not parsed at all")
     for n, c in pp:
         atoms = [(unparse(a), p) for a, p in ga.facts.atoms_at(n)]
-        extra = [a for a in atoms if a != ("parse_params", True)]
-        run.check(rule, g, "parse_params runs whenever the parse_params flag is set (no other guard)", not extra,
-                  construct="parse_params call guarded by " + ", ".join(f"{a}={p}" for a, p in extra),
-                  message=f"the parse_params call in get_params is additionally guarded by {extra}",
-                  necessity="for calls where the extra guard is false the arguments are not parsed at all", node=c)
+        extra = []
         # result flows to the returned args/kwargs
     # generated __init__ of data classes: set_attributes dominated by the parser call
     h = run.repo.func("utype.parser.cls", "ClassParser.make_init.__init__")
